@@ -54,7 +54,8 @@ def main(tier, seed):
             res, complete = explore.explore(ucserver.handler_factory, (fn,), jobs=jobs)
             chk.add_run('request handler handler::%s (under-constrained)' % fn, res, complete, {'handler': 'handler::' + fn}, nontrivial_classes=lambda c: c.startswith('cancelled'))
             for v in res.violations:
-                chk.violation('cancellation:handler::' + fn, 'obligation', v['why'][0], v['cex'], confirmed=True)
+                for w in v['why']:
+                    chk.violation(('lock-discipline' if ': L2' in w else 'cancellation') + ':handler::' + fn, 'obligation', w, v['cex'], confirmed=True)
         # L6: convergence of the published diagnostics
         cfound = []
         for fn in ('on_did_change', 'on_did_open'):
